@@ -187,6 +187,18 @@ class SNum:
     def __abs__(self):
         return _mk(z3.If(self.z >= 0, self.z, -self.z))
 
+    def is_integer(self):
+        """float.is_integer(): decided by the solver (forks when both are possible)"""
+        if self.z.is_int():
+            return True
+        return CTX.branch(self.z == z3.ToReal(z3.ToInt(self.z)))
+
+    def trunc(self):
+        """int(x) of a real: truncation towards zero, as an exact integer term"""
+        if self.z.is_int():
+            return self
+        return _mk(z3.If(self.z >= 0, z3.ToInt(self.z), -z3.ToInt(-self.z)))
+
     def _cmp(self, o, f):
         oz = _z(o)
         if oz is NotImplemented:
@@ -602,7 +614,8 @@ class Ctx:
         return None
 
     def _fallback_model(self):
-        """a concrete point of the current path condition (non-integral values preferred) for the concrete fallback run"""
+        """a concrete point of the current path condition for the concrete fallback run; preferred values are k + 1/3: not
+        integral (truncation shows) and not representable in binary floating point of any width (narrowing to float32 shows)"""
         try:
             self.solver.set('timeout', 3000)
             m = None
@@ -613,7 +626,7 @@ class Ctx:
                     continue
                 if not v.is_int():
                     k = z3.Int(f"__k{i}")
-                    self.solver.add(v == z3.ToReal(k) + z3.RealVal('1/2'), k >= -9, k <= 9)
+                    self.solver.add(v == z3.ToReal(k) + z3.RealVal('1/3'), k >= -9, k <= 9)
             if self.solver.check() == z3.sat:
                 m = self.solver.model()
             self.solver.pop()
@@ -737,6 +750,7 @@ def explore(fn, args=(), timeout_ms=20000, max_paths=None, time_budget=None, max
     fallback_seen = {}
     while True:
         c._start_path()
+        unsupported = None
         try:
             fn(*args)
             c.paths += 1
@@ -749,13 +763,22 @@ def explore(fn, args=(), timeout_ms=20000, max_paths=None, time_budget=None, max
                                   'symbolic_vars': len(c.vars)})
         except Abort:
             c.aborted += 1
+        except z3.Z3Exception as e:
+            c.inconclusive.append((f"z3: {e}", list(c.choices)))
         except Exception as e:      # noqa
-            lab = _library_exception_label(e)
-            if lab is None:
-                raise               # raised by the harness / engine itself: a harness error, not library behaviour
-            c.fail(lab, detail=f"{type(e).__name__}: {e}"[:200])
-            c.paths += 1
+            if isinstance(e, TypeError) and any(n in str(e) for n in ('SNum', 'SText', 'SBool')):
+                # a symbolic value was handed to compiled code (e.g. stored into a float32 buffer): not encodable
+                unsupported = Unsupported(f"symbolic value reached a C boundary: {e}")
+            else:
+                lab = _library_exception_label(e)
+                if lab is None:
+                    raise           # raised by the harness / engine itself: a harness error, not library behaviour
+                c.fail(lab, detail=f"{type(e).__name__}: {e}"[:200])
+                c.paths += 1
         except Unsupported as e:
+            unsupported = e
+        if unsupported is not None:
+            e = unsupported
             c.inconclusive.append((f"unsupported: {e}", list(c.choices)))
             key = str(e)[:60]
             if fallback_seen.get(key, 0) < 2:
@@ -764,8 +787,6 @@ def explore(fn, args=(), timeout_ms=20000, max_paths=None, time_budget=None, max
                 if fb is not None:
                     fallbacks.append({'reason': str(e)[:200], 'choices': list(c.choices), 'values': fb,
                                       'labels': list(c.labels), 'notes': _jsonable(c.notes)})
-        except z3.Z3Exception as e:
-            c.inconclusive.append((f"z3: {e}", list(c.choices)))
         for lab in c.notes.get('_reach', ()):
             reach[lab] = reach.get(lab, 0) + 1
         if len(c.findings) >= max_findings:
